@@ -21,7 +21,8 @@ def check(run):
              'requires that a run of values is open; nulls never emit their own index')
     for cfg in configs(run):
         F = run.facts(cfg)
-        if cfg == 'base': __import__('common').pins(run, F, 'agg_delegates')
+        # `number_prims`: the open outer bounds of vcut are Number::min_() / max_()
+        if cfg == 'base': __import__('common').pins(run, F, 'agg_delegates', 'number_prims')
         # helpers this property stands on (rule sets owned by other properties, see common.deps)
         from common import deps as _deps
         _deps(run, F, 'isnone')
